@@ -104,14 +104,27 @@ pub struct StreamCase {
     /// counts): 0 none, 1 level 0 and chunk size 1 first, 2 level 9 and 64 KiB first, 3 the final
     /// settings applied twice. 1 and 2 only when the case sets a level itself.
     pub builder_detour: u8,
+    /// request headers that have nothing to do with the coding decision (index into NOISE_HEADERS;
+    /// 0 = none)
+    pub noise: u8,
 }
+
+/// Request header sets that must not influence `streaming_body`.
+pub const NOISE_HEADERS: [&[(&str, &str)]; 6] = [
+    &[],
+    &[("cache-control", "no-transform")],
+    &[("cache-control", "no-cache, no-store"), ("pragma", "no-cache"), ("connection", "close")],
+    &[("range", "bytes=0-9"), ("if-none-match", "*"), ("te", "trailers, deflate")],
+    &[("accept", "*/*"), ("content-encoding", "gzip"), ("transfer-encoding", "chunked"), ("content-length", "0")],
+    &[("accept-language", "en"), ("user-agent", "Mozilla/4.0 (compatible; MSIE 6.0)"), ("x-forwarded-proto", "https"), ("cache-control", "max-age=0, No-Transform")],
+];
 
 impl StreamCase {
     pub fn raw(chunk: usize, ops: Vec<Op>) -> StreamCase {
-        StreamCase { method: "GET".into(), accept_encoding: None, chunk, gzip_level: None, via_parts: false, payload: Payload::Hash, ops, extra_polls: 2, fresh_wakers: false, prelude: 0, builder_detour: 0 }
+        StreamCase { method: "GET".into(), accept_encoding: None, chunk, gzip_level: None, via_parts: false, payload: Payload::Hash, ops, extra_polls: 2, fresh_wakers: false, prelude: 0, builder_detour: 0, noise: 0 }
     }
     pub fn gzip(chunk: usize, level: u32, ops: Vec<Op>) -> StreamCase {
-        StreamCase { method: "GET".into(), accept_encoding: Some(b"gzip".to_vec()), chunk, gzip_level: Some(level), via_parts: false, payload: Payload::Hash, ops, extra_polls: 2, fresh_wakers: false, prelude: 0, builder_detour: 0 }
+        StreamCase { method: "GET".into(), accept_encoding: Some(b"gzip".to_vec()), chunk, gzip_level: Some(level), via_parts: false, payload: Payload::Hash, ops, extra_polls: 2, fresh_wakers: false, prelude: 0, builder_detour: 0, noise: 0 }
     }
     pub fn to_json(&self) -> Value {
         json!({
@@ -126,6 +139,7 @@ impl StreamCase {
             "fresh_wakers": self.fresh_wakers,
             "prelude": self.prelude,
             "builder_detour": self.builder_detour,
+            "noise": self.noise,
         })
     }
     pub fn from_json(v: &Value) -> StreamCase {
@@ -148,6 +162,7 @@ impl StreamCase {
             fresh_wakers: v["fresh_wakers"].as_bool().unwrap_or(false),
             prelude: v["prelude"].as_u64().unwrap_or(0) as u8,
             builder_detour: v["builder_detour"].as_u64().unwrap_or(0) as u8,
+            noise: v["noise"].as_u64().unwrap_or(0) as u8,
         }
     }
 }
@@ -265,6 +280,9 @@ pub fn build(case: &StreamCase) -> Option<(http::Response<SBody>, Option<SWriter
     let mut req = http::Request::builder().method(http::Method::from_bytes(case.method.as_bytes()).ok()?).uri("/").body(()).ok()?;
     if let Some(ae) = &case.accept_encoding {
         req.headers_mut().insert(http::header::ACCEPT_ENCODING, http::HeaderValue::from_bytes(ae).ok()?);
+    }
+    for (k, v) in NOISE_HEADERS[case.noise as usize % NOISE_HEADERS.len()] {
+        req.headers_mut().append(http::HeaderName::from_bytes(k.as_bytes()).ok()?, http::HeaderValue::from_str(v).ok()?);
     }
     let mut b = if case.via_parts {
         let (parts, _) = req.into_parts();
